@@ -249,7 +249,7 @@ def run(run, tier, seed):
     import extras
     extras.auto_min_count(run, tier, seed)      # Cli.tla: --min-count auto composes cov and build (drift only)
     vlib.log("auto-min-count done")
-    ok, bad, states = vlib.validate_trace("Trace_Cov", events, "c20", shards=12, timeout=600)
+    ok, bad, states = vlib.validate_trace("Trace_Cov", events, "c20", shards=12 if tier == "quick" else 16, timeout=600 if tier == "quick" else 5400)
     vlib.log("trace validated")
     run.states += states
     run.transitions += len(events)
